@@ -60,6 +60,9 @@ func (c *ctx) genLeaf(name string, f reflect.Value) interface{} {
 		return c.ints(f.Len())
 	case reflect.Slice:
 		if f.Type().Elem().Kind() == reflect.Uint8 {
+			if c.rnd.Intn(12) == 0 { // as long as a frame allows, and around the one-byte length boundary
+				return c.ints(c.pick(200, 240, 250, 251, 252, 253, 254, 255, 256, 300))
+			}
 			return c.ints(c.rnd.Intn(24))
 		}
 		return []interface{}{}
